@@ -97,8 +97,8 @@ def jobs_for(ck, tier, rnd):
         jobs.append(("loop", src, templates, data, list(range(0, min(prod, 40) + 3))))
     jobs = pick(jobs)
     j2 = []
-    for c in rs[1].emitted:
-        src, templates = c07.concretize(c)
+    for i, c in enumerate(rs[1].emitted):
+        src, templates = c07.concretize(c, i % 3)
         total = sum(r["n"] for r in c["prog"] if r["op"] == "text")
         j2.append(("output", src, templates, {}, list(range(0, 2 * total + 3))))
     jobs += pick(j2)
